@@ -54,6 +54,9 @@ def install_strings(x, ctx):
             x.assume.append(AND(IMP(AND(z3.Length(a) > 0, b == z3.StringVal(" "), NOT(z3.Contains(a, z3.StringVal(" ")))), NOT(z3.Contains(t, a))),
                                 IMP(AND(nolb(recv.z()), nolb(b)), nolb(t))))
             return VStr(None, t)
+        if name in ("rstrip", "strip", "lstrip") and recv.py is None and args:
+            f2 = z3.Function(name + "_chars", S, S, S)              # stripping a given character set: a different function from the whitespace strip
+            return VStr(None, f2(recv.z(), args[0].z()))
         if name == "rstrip" and recv.py is None and not args:
             t = rstrip_f(recv.z()); x.assume.append(AND(IMP(nolb(recv.z()), nolb(t)), z3.PrefixOf(t, recv.z()))); return VStr(None, t)
         if name == "strip" and recv.py is None and not args:
@@ -219,3 +222,47 @@ def u_parameters(ctx):
         ctx.check("address words: axis labels first in X,Y,Z order, then the other keys; <label><number> separated by single spaces; None axes omitted",
                   ITE(z3.Length(full) == 0, r == z3.StringVal(""), z3.Concat(sp, r) == full), e, None, "post")
         ctx.canary("canary: F comes before the axes", z3.PrefixOf(z3.StringVal("F"), r), e)
+
+
+# ---------------------------------------------------------------------------------------------- GCodeCore text entry points (string level)
+def _core_text_unit(method, mk, expect):
+    @unit(f"GCodeCore.{method}[string level]", ["C09", "C08"])
+    def u(ctx):
+        st = State(T, {}, {}, []); x = ctx.executor(); install_strings(x, ctx)
+        f, dp = mk_formatter(st, "(")
+        g = st.alloc("GCodeCore", {"_formatter": f, "_logger": NONE})
+        written = []
+        x.contracts[("GCodeCore", "write")] = lambda x_, recv, a, k, st_: (written.append((st_.pc, a[0])), NONE)[1]
+        fcalls = []
+        orig = None
+        def h_comment(x_, recv, a, k, st_):
+            fcalls.append(a[0]); r = VStr(None, z3.Function("formatted_comment", S, S)(a[0].z())); return r
+        x.contracts[("DefaultFormatter", "comment")] = h_comment                  # confinement of comment(): its own units
+        args, wf = mk(ctx)
+        x.ext["str"] = lambda x_, v, st_, n: v if isinstance(v, VStr) else VStr(None, fresh("str", S))
+        def str_join(x_, sep, els, st_, n):
+            parts = []
+            for i, (g_, v) in enumerate(els):
+                if i: parts.append(sep.z())
+                parts.append(x_.to_str(v, st_, n).z())
+            return VStr(None, z3.Concat(*parts) if len(parts) > 1 else (parts[0] if parts else z3.StringVal("")))
+        x.ext["str.join"] = str_join
+        x.ext["str.isidentifier"] = lambda x_, recv, a, k, st_, n: VBool(z3.Function("isidentifier", S, z3.BoolSort())(recv.z()))
+        exits = ctx.run(x, f"GCodeCore.{method}", [g] + args, {}, st)
+        covers(ctx, exits)
+        for e in exits:
+            if e.kind != "return": continue
+            ctx.check("the WHOLE caller-supplied text goes through format.comment() exactly once, and exactly its result is written",
+                      AND(z3.BoolVal(len(fcalls) == 1 and len(written) == 1), (fcalls[0].z() == expect(args)) if fcalls else F,
+                          (written[0][1].z() == z3.Function("formatted_comment", S, S)(fcalls[0].z())) if (fcalls and written) else F), e, None, "post")
+    return u
+
+
+def _mk_comment(ctx):
+    m = VStr(None, fresh("message", S)); a1 = VStr(None, fresh("arg1", S)); a2 = VStr(None, fresh("arg2", S))
+    return [m, a1, a2], T
+
+
+_core_text_unit("comment", _mk_comment, lambda a: z3.Concat(a[0].z(), z3.StringVal(" "), a[1].z(), z3.StringVal(" "), a[2].z()))
+_core_text_unit("annotate", lambda ctx: ([VStr(None, fresh("key", S)), VStr(None, fresh("value", S))], T),
+                lambda a: z3.Concat(z3.StringVal("@set "), a[0].z(), z3.StringVal(" = "), a[1].z()))
